@@ -15,11 +15,13 @@ def run(tier):
     classes = en.cls("GUARD") | (en.cls("REQ") if thorough else 0)
     args = ["--tier", tier, "--dev", "2" if thorough else "1", "--batch", "2" if thorough else "1", "--classes", str(classes),
             "--dev-immediate", "1", "--imm-reduced", "0" if thorough else "1", "--deadline", str(1500 if thorough else 150)]
+    if thorough:
+        args += ["--initial-cancel", "1"]
     if not thorough:
         # the two smallest programs (flat; orthogonal root) once more with two deviations (e.g. a guard-issued follow-up request that is vetoed in its round)
         d2 = en.curated(names=["flat3"]) + [en.Prog("tinyortho", "O(C(l,l),l)"), en.Prog("tinyortho2", "C(O(l,l),l)")]
         for p in d2:
-            p.args = ["--dev", "2"]
+            p.args = ["--dev", "2", "--initial-cancel", "1"]
             p.label += "/dev2"
         progs += d2
     if thorough:
